@@ -76,4 +76,8 @@ def readsOk (len cost : Nat) : Bool := cost ≤ 2 * len + 1
     ≤ 2·(|input| + bytes obtained from gzip_decode) + 2. -/
 def setCostOk (len gz cost : Nat) : Bool := cost ≤ 2 * (len + gz) + 2
 
+/-- Bound proved for a fetch response decoded AND all its message sets iterated
+    (`C12_linear_fetch_total`): ≤ 4·|input| + 2·(bytes obtained from gzip_decode) + 1. -/
+def fetchTotalOk (len gz cost : Nat) : Bool := cost ≤ 4 * len + 2 * gz + 1
+
 end Afkak.Monitor.C12
